@@ -145,18 +145,94 @@ example : exTableIdSecond "2 3 7.5\n1 1 2.5\n2 2 3.5\n" =
     some [("atype", [[1], [2], [2]]), ("pos", [[0, 0, 0], [0, 0, 0], [0, 0, 0]]), ("w", [[5 / 2], [7 / 2], [15 / 2]])] := by
   decide +kernel
 
+/-- in every atom_style the loader knows, the atom id is the first column (what the flag reader relies on). -/
+theorem atom_styles_id_first :
+    ∀ e ∈ Gen.LoadStyles.atomStyles, (e.2.head?).map (fun c => (c.1, c.2.1)) = some ("a_id", ["id"]) := by
+  decide +kernel
+
+/-! statement audit: `hid` (the id is the leading column of the column list of EVERY atom_style, hybrids included) was a
+    hypothesis of `load_perm_invariant` / `load_perm_invariant_data_file`; it is a fact about the regenerated tables -/
+
+theorem resolveCol_names {u : Units} {c : ColSpec} {p : PCol} (h : resolveCol u c = .ok p) : p.names = c.names := by
+  unfold resolveCol at h
+  cases hu : resolveUnit u c.unit with
+  | error e => simp [hu, bind, Except.bind] at h
+  | ok v =>
+    simp only [hu, bind, Except.bind, pure, Except.pure, Except.ok.injEq] at h
+    subst h; rfl
+
+theorem lookupStyle_head {st : String} {cs : List ColSpec}
+    (h : lookupStyle Gen.LoadStyles.atomStyles st = some cs) : ∃ c rest, cs = c :: rest ∧ c.names = ["id"] := by
+  obtain ⟨e, he, _, hne, rfl⟩ := lookupStyle_some h
+  have := atom_styles_id_first e he
+  cases h2 : e.2 with
+  | nil => exact absurd h2 hne
+  | cons g rest =>
+    rw [h2] at this
+    simp only [List.head?_cons, Option.map_some, Option.some.injEq, Prod.mk.injEq] at this
+    exact ⟨ofGenCol g, rest.map ofGenCol, by simp, this.2⟩
+
+theorem hybridFold_head (tbl : List (String × List Gen.AtomStyles.Col)) (subs : List String) :
+    ∀ (base acc : List ColSpec) (c : ColSpec) (rest : List ColSpec), base = c :: rest →
+      subs.foldlM (fun acc sub => do
+        let sc ← lookupStyle tbl sub
+        pure (acc ++ sc.filter fun c => !(acc.any (·.prop = c.prop)))) base = some acc →
+      ∃ rest', acc = c :: rest' := by
+  induction subs with
+  | nil => intro base acc c rest hb h; simp at h; subst h; exact ⟨rest, hb⟩
+  | cons s ss ih =>
+    intro base acc c rest hb h
+    rw [List.foldlM_cons] at h
+    cases hl : lookupStyle tbl s with
+    | none => simp [hl] at h
+    | some sc =>
+      simp only [hl, Option.bind_eq_bind, Option.bind_some, Option.pure_def] at h
+      subst hb
+      exact ih _ acc c (rest ++ sc.filter fun c' => !((c :: rest).any (·.prop = c'.prop))) rfl h
+
+/-- the id is the leading column of every column list the loader builds from an atom_style — plain or hybrid. -/
+theorem lookupCols_id_first (st : String) (u : Units) (cols : List PCol)
+    (h : lookupCols Gen.LoadStyles.atomStyles st u = .ok cols) : idIndex cols = some 0 := by
+  unfold lookupCols at h
+  cases hs : loadStyleCols Gen.LoadStyles.atomStyles st with
+  | none => rw [hs] at h; cases h
+  | some cs =>
+    rw [hs] at h
+    have hhead : ∃ c rest, cs = c :: rest ∧ c.names = ["id"] := by
+      unfold loadStyleCols at hs
+      split at hs
+      · unfold hybridCols at hs
+        cases hb : lookupStyle Gen.LoadStyles.atomStyles "atomic" with
+        | none => simp [hb] at hs
+        | some base =>
+          obtain ⟨c, rest, rfl, hc⟩ := lookupStyle_head hb
+          simp only [hb, Option.bind_eq_bind, Option.bind_some] at hs
+          obtain ⟨rest', rfl⟩ := hybridFold_head _ _ _ cs c rest rfl hs
+          exact ⟨c, rest', rfl, hc⟩
+      · exact lookupStyle_head hs
+    obtain ⟨c, rest, rfl, hc⟩ := hhead
+    simp only [List.mapM_cons, bind, Except.bind, pure, Except.pure] at h
+    cases h1 : resolveCol u c with
+    | error e => simp [h1] at h
+    | ok p =>
+      cases h2 : List.mapM (resolveCol u) rest with
+      | error e => simp [h1, h2] at h
+      | ok ps =>
+        simp only [h1, h2, Except.ok.injEq] at h
+        subst h
+        simp [idIndex, resolveCol_names h1, hc, List.findIdx_cons]
+
 /-- **load_perm_invariant**: the `Atoms` section of a data file — the property table *and* the image-flag shifts,
     both ordered by atom id — loads to the same system for every order of its atom lines, when the ids are
     distinct.  (`load_perm_invariant_table` is the same for dump files, tables and the `Velocities` section.) -/
 theorem load_perm_invariant {rows₁ rows₂ : List Line} (atomsColumns : Nat) (s : Loaded) (style : String) (u : Units)
     (hp : rows₁.Perm rows₂)
-    (hid : ∀ cols, lookupCols Gen.LoadStyles.atomStyles style u = .ok cols → idIndex cols = some 0)
     (hd : ∀ cols t, lookupCols Gen.LoadStyles.atomStyles style u = .ok cols →
       readTable rows₁ (colsWidth cols) true = .ok t → (t.map (rowKey 0)).Nodup)
     (hdf : ∀ cols fl, lookupCols Gen.LoadStyles.atomStyles style u = .ok cols →
       rows₁.mapM (readFlagRow (colsWidth cols)) = .ok fl → (fl.map (·.1)).Nodup) :
     readAtoms rows₁ atomsColumns s style u = readAtoms rows₂ atomsColumns s style u :=
-  readAtoms_perm atomsColumns s style u hp hid hd hdf
+  readAtoms_perm atomsColumns s style u hp (fun cols h => lookupCols_id_first style u cols h) hd hdf
 
 /-- **load_perm_invariant, file level**: two data files laid out like the writer's (header, `Atoms # style`, the atom
     lines, optional `Velocities`) that differ only in the order of their atom lines — all of one width, as many as the
@@ -167,19 +243,14 @@ theorem load_perm_invariant_data_file {f : Fmt} (hf : Readable f) (style : Strin
     (hperm : p'.rows.Perm p.rows) (hn : p.natoms = p.rows.length) (m : Nat) (hm : ∀ r ∈ p.rows, r.length = m)
     (hne : p.rows ≠ []) (hm0 : m ≠ 0) (hv : ∀ vr, p.vel = some vr → ∀ r ∈ vr, r ≠ [])
     (pbc : V3 Bool) (symbols : Option (List (Option String))) (styleArg : Option String)
-    (hid : ∀ st cols, lookupCols Gen.LoadStyles.atomStyles st u = .ok cols → idIndex cols = some 0)
     (hd : ∀ st cols t, lookupCols Gen.LoadStyles.atomStyles st u = .ok cols →
       readTable (rowsDoc f p.rows) (colsWidth cols) true = .ok t → (t.map (rowKey 0)).Nodup)
     (hdf : ∀ st cols fl, lookupCols Gen.LoadStyles.atomStyles st u = .ok cols →
       (rowsDoc f p.rows).mapM (readFlagRow (colsWidth cols)) = .ok fl → (fl.map (·.1)).Nodup) :
     loadData (renderLines (dataDocOf f style p)) pbc symbols styleArg u =
       loadData (renderLines (dataDocOf f style p')) pbc symbols styleArg u :=
-  data_file_rows_perm hf style p p' u hwords hsame hperm hn m hm hne hm0 hv pbc symbols styleArg hid hd hdf
+  data_file_rows_perm hf style p p' u hwords hsame hperm hn m hm hne hm0 hv pbc symbols styleArg (fun st cols h => lookupCols_id_first st u cols h) hd hdf
 
-/-- in every atom_style the loader knows, the atom id is the first column (what the flag reader relies on). -/
-theorem atom_styles_id_first :
-    ∀ e ∈ Gen.LoadStyles.atomStyles, (e.2.head?).map (fun c => (c.1, c.2.1)) = some ("a_id", ["id"]) := by
-  decide +kernel
 
 /-- two atom lines in either order: same system (the hypotheses of `load_perm_invariant` are satisfiable). -/
 example :
@@ -563,5 +634,120 @@ theorem load_dump_roundtrip_poscar_any_route {f : Fmt} (hf : Readable f) (s : Sy
           (symArg.getD (writtenSymbols symbols (poscarNums s (isCartStyle coordstyle) scale).counts))) := by
   obtain ⟨w', h1, h2⟩ := load_dump_roundtrip_any_route (fun t => loadPoscar t symArg) w k p text hk src hs
   exact ⟨w', h1, h2.trans (load_dump_roundtrip_poscar hf s header symbols coordstyle scale text hw hh hsy hcs hlen hne symArg)⟩
+
+/-! ## statement audit: non-vacuity — theorems applied with every hypothesis discharged on concrete, non-trivial values
+    (the `decide +kernel` examples above evaluate the model; these show the hypotheses of the theorems can be met) -/
+
+section AuditExamples
+
+def auBox : Box Rat := ⟨⟨⟨1, 0, 0⟩, ⟨0, 1, 0⟩, ⟨0, 0, 1⟩⟩, ⟨0, 0, 0⟩⟩
+/-- `type id w` (id not leading), a `(1,)` column with a unit factor -/
+def auCols : List PCol := [⟨"atype", ["type"], [], .none⟩, ⟨"a_id", ["id"], [], .none⟩, ⟨"w", ["w[0]"], [1], .factor (1 / 2)⟩]
+def auRows : List Line := [[cs!"2", cs!"3", cs!"7.5"], [cs!"1", cs!"1", cs!"2.5"], [cs!"2", cs!"2", cs!"3.5"]]
+def auRows' : List Line := [[cs!"1", cs!"1", cs!"2.5"], [cs!"2", cs!"2", cs!"3.5"], [cs!"2", cs!"3", cs!"7.5"]]
+
+theorem auTable : readTable auRows (colsWidth auCols) false =
+    .ok [[.int 2, .int 3, .num (15/2)], [.int 1, .int 1, .num (5/2)], [.int 2, .int 2, .num (7/2)]] := by decide +kernel
+
+-- `load_perm_invariant_table`: id column second, three lines out of order vs in order; `hd` discharged.
+example : tableLoad (Loaded.init auBox ⟨true, true, true⟩ 3 [] []) auRows auCols false =
+    tableLoad (Loaded.init auBox ⟨true, true, true⟩ 3 [] []) auRows' auCols false :=
+  load_perm_invariant_table _ auCols false 1 (by decide) (by decide +kernel)
+    (fun t ht => by rw [auTable] at ht; cases ht; decide +kernel)
+
+-- `tableLoad_prop_shape`, `tableLoad_prop_values`, `tableLoad_frame`, `tableLoad_other`: the load succeeds, names are distinct.
+theorem auLoad : ∃ s', tableLoad (Loaded.init auBox ⟨true, true, true⟩ 3 [] []) auRows auCols false = .ok s' := by
+  cases h : tableLoad (Loaded.init auBox ⟨true, true, true⟩ 3 [] []) auRows auCols false with
+  | ok s' => exact ⟨s', rfl⟩
+  | error e =>
+    have : (tableLoad (Loaded.init auBox ⟨true, true, true⟩ 3 [] []) auRows auCols false).toOption.isSome = true := by
+      decide +kernel
+    rw [h] at this; cases this
+example : ∃ s' q, tableLoad (Loaded.init auBox ⟨true, true, true⟩ 3 [] []) auRows auCols false = .ok s' ∧
+    s'.prop? "w" = some q ∧ q.shape = [1] ∧ s'.natoms = 3 ∧ s'.prop? "pos" = (Loaded.init auBox ⟨true, true, true⟩ 3 [] []).prop? "pos" := by
+  obtain ⟨s', h⟩ := auLoad
+  obtain ⟨q, hq, hs, _⟩ := tableLoad_prop_shape _ s' auRows auCols false (by decide) h ⟨"w", ["w[0]"], [1], .factor (1 / 2)⟩
+    (by unfold auCols; simp) (by decide)
+  obtain ⟨tbl, _, _⟩ := tableLoad_prop_values _ s' auRows auCols false (by decide) h
+  exact ⟨s', q, h, hq, hs, (tableLoad_frame _ s' auRows auCols false h).1,
+    tableLoad_other _ s' auRows auCols false h "pos" (by decide)⟩
+
+-- `shape_told_apart`, `sortBy_eq_of_perm`, `unit_roundtrip_error`
+example : ([1, 3] : List Nat) = [1, 3] ∧ ∀ t, reshape [1, 3] [1, 2, 3] = some t → t.hasShape [3, 1] = true → False := by
+  refine ⟨rfl, fun t ht h2 => ?_⟩
+  have h1 := ((reshape_flatten_roundtrip [1, 3]).2.1 [1, 2, 3] t ht).1
+  have := shape_told_apart t [1, 3] [3, 1] h1 h2 (by decide)
+  cases this
+example : sortBy (fun x : Rat × Nat => x.1) [(3, 0), (1, 1), (2, 2)] = sortBy (fun x : Rat × Nat => x.1) [(1, 1), (2, 2), (3, 0)] :=
+  sortBy_eq_of_perm _ (by decide) (by decide +kernel)
+example := unit_roundtrip_error (7 / 3) (1 / 10) 4 (by norm_num)
+
+-- comments and blank lines: `termsC_comment_only`, `sig_insert_blank`, `sigOf_trailing_comment`,
+-- `load_comment_blank_invariant`, `load_blank_invariant_dump`
+example : termsC (cs!" \t" ++ '#' :: cs!" 5 atoms") = [] := termsC_comment_only _ _ (by decide)
+example : sig ([cs!"3 atoms"] ++ cs!"  # 5 atoms" :: [cs!"Atoms # atomic"]) = sig ([cs!"3 atoms"] ++ [cs!"Atoms # atomic"]) :=
+  sig_insert_blank _ _ _ (by decide +kernel)
+example : sigOf (cs!"0 4 xlo xhi " ++ '#' :: cs!" 5 atoms") = sigOf (cs!"0 4 xlo xhi ") :=
+  sigOf_trailing_comment _ _ (by decide) (by decide +kernel)
+example (pbc : V3 Bool) (u : Units) :
+    loadDataLines [cs!"title", cs!"", cs!"2 atoms # two", cs!"# c", cs!"0 4 xlo xhi"] pbc none none u =
+      loadDataLines [cs!"title # other", cs!"2 atoms", cs!"0 4 xlo xhi", cs!"   "] pbc none none u :=
+  load_comment_blank_invariant _ _ (by decide +kernel) (by decide) pbc none none u
+example (u : Units) :
+    loadDumpLines [cs!"ITEM: TIMESTEP", cs!"", cs!"0", cs!"  "] none none u =
+      loadDumpLines [cs!"ITEM: TIMESTEP", cs!"0"] none none u :=
+  load_blank_invariant_dump _ _ (by decide +kernel) none none u
+
+-- `missing_section_rejected`: counts and bounds present, no `Atoms` line (last disjunct of `MissingRequired`).
+example : ∀ sys, loadDataLines [cs!"", cs!"1 atoms", cs!"0 1 xlo xhi", cs!"0 1 ylo yhi", cs!"0 1 zlo zhi", cs!"", cs!"Masses", cs!"",
+    cs!"1 26.98"] ⟨true, true, true⟩ none none [("length", some 1)] ≠ .ok sys :=
+  (missing_section_rejected _ _ none none _ (Or.inr (Or.inr (Or.inr (Or.inr (by decide +kernel)))))).1
+
+-- text layer: `lexLine_joinSp`, `splitLines_renderLines`, `readTable_rowsDoc`
+example : lexLine (joinSp [cs!"ITEM:", cs!"ATOMS", cs!"id", cs!"c_pe[1]"]) = [cs!"ITEM:", cs!"ATOMS", cs!"id", cs!"c_pe[1]"] :=
+  lexLine_joinSp _ (by
+    intro t ht
+    simp only [List.mem_cons, List.not_mem_nil, or_false] at ht
+    rcases ht with rfl | rfl | rfl | rfl <;> (unfold CleanTok; decide))
+example : splitLines (renderLines [[cs!"2", cs!"atoms"], [], [cs!"Atoms", cs!"#", cs!"atomic"]]) =
+    [[cs!"2", cs!"atoms"], [], [cs!"Atoms", cs!"#", cs!"atomic"]].map joinSp :=
+  splitLines_renderLines _ (by decide +kernel)
+example : ∃ tbl, readTable (rowsDoc (.fixed 3) [[.int 2, .num (7 / 2), .num 1], [.int 1, .num (5 / 2), .num 0]]) 2 true = .ok tbl ∧
+    tbl.map (·.map Val.toRat) = [[.int 2, .num (7 / 2), .num 1], [.int 1, .num (5 / 2), .num 0]].map
+      fun r => (r.take 2).map (cellRat (.fixed 3)) :=
+  readTable_rowsDoc (fixed_formats_readable 3) _ 3 2 true (by decide) (by decide) (by decide)
+
+-- routes: a dump through a `pathlib.Path` over a file that held an earlier, longer dump, loaded back by name
+example : ∃ w', dumpTo ⟨[("a.dat", cs!"old old old")], []⟩ (.pathObj "a.dat") (cs!"new") = .ok (w', none) ∧
+    loadVia (fun t => (.ok t : Res (List Char))) w' (.str "a.dat".toList) = .ok (cs!"new") :=
+  load_dump_roundtrip_any_route _ _ (.pathObj "a.dat") "a.dat" _ (Or.inr (Or.inl rfl)) _ (Or.inl rfl)
+example := dump_target_holds_content ⟨[("a.dat", cs!"old old old")], []⟩ (.textFile "a.dat") "a.dat" (cs!"new")
+  (Or.inr (Or.inr (Or.inr rfl)))
+example := dump_twice_last_wins ⟨[], []⟩ (.path "a.dat") "a.dat" (cs!"first, long") (cs!"2nd") (Or.inl rfl)
+example := sourceTextRead_eq ⟨[("a.dat", cs!"x")], []⟩ (.pathObj "a.dat") (by intro p h; cases h)
+example : sourceTextRead ⟨[("a.dat", cs!"1 atoms")], []⟩ (.textFile "a.dat") = .ok (cs!"1 atoms") :=
+  sourceTextRead_textFile _ _ _ (by decide +kernel) (by decide +kernel)
+
+def auAtomic : List PCol := [⟨"a_id", ["id"], [], .none⟩, ⟨"atype", ["type"], [], .none⟩, ⟨"pos", ["x", "y", "z"], [3], .factor 1⟩]
+def auU : Units := [("length", some 1)]
+theorem auLookup : lookupCols Gen.LoadStyles.atomStyles "atomic" auU = .ok auAtomic := by decide +kernel
+def auAtomRows : List Line :=
+  [[cs!"2", cs!"1", cs!"1.5", cs!"0.5", cs!"0.5", cs!"1", cs!"0", cs!"0"], [cs!"1", cs!"1", cs!"0.5", cs!"0.5", cs!"0.5", cs!"0", cs!"0", cs!"-1"]]
+
+-- `load_perm_invariant`: two `Atoms` lines of style `atomic` with image flags, either order; `hd`, `hdf` discharged (`hid` is now proved: `lookupCols_id_first`).
+example (s : Loaded) : readAtoms auAtomRows 8 s "atomic" auU = readAtoms auAtomRows.reverse 8 s "atomic" auU :=
+  load_perm_invariant 8 s "atomic" auU (by decide)
+    (fun cols t h ht => by
+      rw [auLookup] at h; cases h
+      have : readTable auAtomRows (colsWidth auAtomic) true =
+          .ok [[.int 2, .int 1, .num (3/2), .num (1/2), .num (1/2)], [.int 1, .int 1, .num (1/2), .num (1/2), .num (1/2)]] := by
+        decide +kernel
+      rw [this] at ht; cases ht; decide +kernel)
+    (fun cols fl h hf => by
+      rw [auLookup] at h; cases h
+      have : auAtomRows.mapM (readFlagRow (colsWidth auAtomic)) = .ok [(2, ⟨1, 0, 0⟩), (1, ⟨0, 0, -1⟩)] := by decide +kernel
+      rw [this] at hf; cases hf; decide +kernel)
+
+end AuditExamples
 
 end Atomman.C08
